@@ -139,6 +139,10 @@ pub fn bursts() -> Vec<Burst> {
     // that still holds an invitation for later
     v.push(mk("invite-vs-join-open", base_cfg(), 3, users3(), vec![], vec![(0, "JOIN #c")], vec![(0, vec!["INVITE bob #c"]), (1, vec!["JOIN #c"])]));
     v.push(mk("invite-vs-part", base_cfg(), 3, users3(), vec![], vec![(0, "JOIN #c"), (1, "JOIN #c")], vec![(0, vec!["INVITE bob #c"]), (1, vec!["PART #c"])]));
+    // a query that reports several counters describes one moment: LUSERS while a registration
+    // completes, and while a user leaves
+    v.push(mk("lusers-vs-registration", base_cfg(), 3, wit(), vec![1], vec![(1, "NICK x")], vec![(0, vec!["LUSERS"]), (1, vec!["USER u1 0 * :r"])]));
+    v.push(mk("lusers-vs-quit", base_cfg(), 3, users3(), vec![], vec![(1, "MODE bob +i")], vec![(0, vec!["LUSERS"]), (1, vec!["QUIT"])]));
     v.push(mk("quit-vs-invite", base_cfg(), 3, users3(), vec![], vec![(0, "JOIN #c"), (1, "JOIN #c")], vec![(0, vec!["INVITE carol #c"]), (2, vec!["QUIT"])]));
     v
 }
